@@ -578,7 +578,7 @@ struct BinRun {
     conns: Vec<Conn>,
 }
 
-fn run_bin(bin: &str, dir: &Path, args: &[String], rx: &Receiver<Conn>) -> BinRun {
+fn run_bin(bin: &str, dir: &Path, args: &[String], rx: &Receiver<Conn>, suffix: &str, foreign_seen: &mut u64) -> BinRun {
     while rx.try_recv().is_ok() {}
     let mut child = Command::new(bin)
         .args(&args[1..])
@@ -619,9 +619,63 @@ fn run_bin(bin: &str, dir: &Path, args: &[String], rx: &Receiver<Conn>) -> BinRu
     let out = h1.join().unwrap() + &h2.join().unwrap();
     let mut conns = Vec::new();
     while let Ok(c) = rx.try_recv() {
-        conns.push(c);
+        if foreign(&c, suffix) {
+            *foreign_seen += 1;
+        } else {
+            conns.push(c);
+        }
     }
     BinRun { exit: status.and_then(|s| s.code()), hung, out, conns }
+}
+
+fn unb64(text: &str) -> Option<Vec<u8>> {
+    let mut out = Vec::new();
+    let (mut acc, mut bits) = (0u32, 0u32);
+    for ch in text.bytes() {
+        let v = match ch {
+            b'A'..=b'Z' => ch - b'A',
+            b'a'..=b'z' => ch - b'a' + 26,
+            b'0'..=b'9' => ch - b'0' + 52,
+            b'+' => 62,
+            b'/' => 63,
+            b'=' => break,
+            _ => return None,
+        };
+        acc = (acc << 6) | v as u32;
+        bits += 6;
+        if bits >= 8 {
+            bits -= 8;
+            out.push((acc >> bits) as u8);
+            acc &= (1 << bits) - 1;
+        }
+    }
+    Some(out)
+}
+
+/// Marker every credential value of this run of the rig ends with.  The loopback ports are shared by the whole
+/// machine: a connection whose credentials carry the marker of ANOTHER run of this rig is not ours and is ignored.
+const MARK: &str = ".c20run-";
+
+fn mark_credentials(m: &mut Map<String, Value>, suffix: &str) {
+    for k in ["btc_rpc_user", "btc_rpc_password", "btc_rpc_cookie"] {
+        if let Some(Value::String(v)) = m.get(k) {
+            if !v.is_empty() {
+                let marked = format!("{v}{suffix}");
+                m.insert(k.to_owned(), Value::String(marked));
+            }
+        }
+    }
+}
+
+fn foreign(c: &Conn, suffix: &str) -> bool {
+    let text = c
+        .authorization
+        .as_deref()
+        .and_then(|a| a.strip_prefix("Basic "))
+        .and_then(unb64)
+        .map(|b| String::from_utf8_lossy(&b).to_string())
+        .unwrap_or_default();
+    text.contains(MARK) && !text.contains(suffix)
 }
 
 fn cookie_content(name: &str) -> String {
@@ -672,11 +726,21 @@ fn mode_teosd(bin: &str, meta_path: &str, cases_path: &str, workdir: &str) {
     let mut unobservable = 0u64;
     let mut runs = 0u64;
     let mut log_values = 0u64;
+    let mut foreign_seen = 0u64;
+    let suffix = format!(
+        "{MARK}{:x}-{:x}",
+        std::process::id(),
+        std::time::SystemTime::now().duration_since(std::time::UNIX_EPOCH).map(|d| d.subsec_nanos()).unwrap_or(0)
+    );
     for (i, case) in cases.iter().enumerate() {
-        let file = as_obj(&case["file"]);
-        let cli = as_obj(&case["cli"]);
+        // concretisation: the credential values of the case, made unique to this run (see MARK)
+        let mut file = as_obj(&case["file"]);
+        let mut cli = as_obj(&case["cli"]);
         let exp = &case["exp"];
-        let settings = as_obj(&exp["settings"]);
+        let mut settings = as_obj(&exp["settings"]);
+        mark_credentials(&mut file, &suffix);
+        mark_credentials(&mut cli, &suffix);
+        mark_credentials(&mut settings, &suffix);
         let dir = root.join(format!("c{i}"));
         std::fs::create_dir_all(&dir).unwrap();
         std::fs::write(dir.join("teos.toml"), toml_text(&file)).unwrap();
@@ -690,7 +754,7 @@ fn mode_teosd(bin: &str, meta_path: &str, cases_path: &str, workdir: &str) {
         let args = cli_args(&cli, &meta, &dir);
         t.cases += 1;
         let accept = exp["accept"].as_bool().unwrap();
-        let r1 = run_bin(bin, &dir, &args, &rx);
+        let r1 = run_bin(bin, &dir, &args, &rx, &suffix, &mut foreign_seen);
         runs += 1;
         let mut bad: Vec<String> = Vec::new();
         let created = |dir: &Path| -> Vec<String> {
@@ -795,7 +859,7 @@ fn mode_teosd(bin: &str, meta_path: &str, cases_path: &str, workdir: &str) {
             }
             // second start on the same data directory: a second tower key appears iff overwrite_key is in effect
             if made.len() == 1 && !r1.hung {
-                let r2 = run_bin(bin, &dir, &args, &rx);
+                let r2 = run_bin(bin, &dir, &args, &rx, &suffix, &mut foreign_seen);
                 runs += 1;
                 let db = dir.join(&made[0]).join("teos_db.sql3");
                 let keys: Option<i64> = rusqlite::Connection::open_with_flags(&db, rusqlite::OpenFlags::SQLITE_OPEN_READ_ONLY)
@@ -825,7 +889,7 @@ fn mode_teosd(bin: &str, meta_path: &str, cases_path: &str, workdir: &str) {
         json!({"cases": t.cases, "comparisons": t.comparisons, "running": t.running, "refused": t.refused,
                "mismatching_cases": t.bad_cases, "signatures": t.signatures, "first": t.first(),
                "process_runs": runs, "unobservable": unobservable, "unbound": unbound, "listeners": bound.len(),
-               "reported_values_compared": log_values})
+               "reported_values_compared": log_values, "foreign_connections_ignored": foreign_seen})
     );
 }
 
